@@ -436,6 +436,20 @@ def c10_extra(tier, seed, ctx):
                 conc_cases.append(case)
                 if len(samples) < 3:
                     samples.append(sample)
+    # a stop that arrives while the FIRST iteration is still running (eleven queens a side: depth 1 alone takes minutes)
+    long_first = "3qk3/1q1q1q2/2q1q3/1QQQQQ2/1qqqqq2/2Q1Q3/1Q1Q1Q2/3QK3 w - - 0 1"
+    for name, delays, script, expected in [("stop-during-a-long-first-iteration", {}, [(0, "go infinite"), (120, "stop")], 1),
+                                           ("stop-then-go-during-a-long-first-iteration", {}, [(0, "go infinite"), (120, "stop"), (300, "go nodes 1")], 2)]:
+        evals += 1
+        distinct.add((long_first, name))
+        for attempt in range(3):
+            v, q, sample, case = run_schedule(ctx["engine"], long_first, name, delays, script, expected, load_factor() * (1 + attempt))
+            if not v:
+                break
+            retried += 1
+            time.sleep(0.4 * (attempt + 1))
+        violations += v
+        queries += q
     for l in legal_queries(ctx["driver"], queries):
         violations.append(viol("C10", "bestmove-not-legal", l))
     return {"violations": violations, "model_mismatches": model_mismatches, "evaluations": evals, "distinct_nontrivial": len(distinct), "samples": samples,
@@ -651,7 +665,7 @@ def c16_extra(tier, seed, ctx):
 # ------------------------------------------------------------------------------------------------
 # C14: the real binary's info lines (with their time / nps tokens) for `go depth N`
 
-INFO_RE = re.compile(r"^info depth (\d+)( seldepth \d+)? nodes \d+( time \d+)?( nps \d+)? score (cp -?\d+|mate -?\d+) pv( [a-h][1-8][a-h][1-8][qrbn]?)*$")
+INFO_RE = re.compile(r"^info depth (\d+)( seldepth \d+)? nodes \d+( time \d+)?( nps \d+)? score (cp -?\d+|mate -?\d+) pv( [a-h][1-8][a-h][1-8][qrbn]?)+$")
 
 
 def c14_extra(tier, seed, ctx):
@@ -660,10 +674,19 @@ def c14_extra(tier, seed, ctx):
     # roots with a single legal move (in check / not in check) are part of "all positions with a legal move"
     forced = ["7k/8/8/8/8/8/5PP1/r5K1 w - - 0 1", "7k/7p/7P/8/8/8/8/K7 b - - 0 1", "rnbqkbnr/ppppp1pp/8/5p1Q/4P3/8/PPPP1PPP/RNB1KBNR b KQkq - 1 2"]
     fens = (SEEDS[:4] if tier == "quick" else SEEDS) + forced
+    # roots that repeat an earlier position of the game (both sides shuffled a piece out and back)
+    histories = {"startpos-shuffle": "position startpos moves g1f3 g8f6 f3g1 f6g8",
+                 "endgame-shuffle": "position fen 8/5k2/8/8/8/8/1R6/4K3 w - - 0 1 moves b2b3 f7f6 b3b2 f6f7 b2b3 f7f6 b3b2 f6f7"}
     depths = [1, 2, 3, 4] if tier == "quick" else [1, 2, 3, 4, 5]
-    for fen in fens:
+    for fen in fens + list(histories):
         eng = Engine(ctx["engine"])
-        eng.send(f"position fen {fen}")
+        eng.send(histories[fen] if fen in histories else f"position fen {fen}")
+        base, hist = fen, []
+        if fen in histories:
+            cmd = histories[fen]
+            head, _, mv = cmd.partition(" moves ")
+            hist = mv.split()
+            base = SEEDS[0] if "startpos" in head else head.split("position fen ", 1)[1]
         for d in depths:
             idx = len(eng.lines())
             eng.send(f"go depth {d}")
@@ -684,7 +707,7 @@ def c14_extra(tier, seed, ctx):
                 pv = norm.split(" pv", 1)[1].split() if " pv" in norm else []
                 # every prefix of the PV must be a legal line: ask for the last move after the earlier ones
                 for k in range(len(pv)):
-                    queries.append((fen, " ".join(pv[:k]), pv[k]))
+                    queries.append((base, " ".join(hist + pv[:k]), pv[k]))
             if got != list(range(1, d + 1)):
                 violations.append(viol("C14", "depth-limit-not-completed", f"fen=[{fen}] go depth {d}: reported depths {got}"))
             if len(samples) < 3 and infos:
